@@ -1,16 +1,102 @@
 # C20 - Jenkins job graph is acyclic, complete and faithful  (pym/bob/cmds/jenkins/jenkins.py, intermediate.py)
-# No function is under contract: JobNameCalculator.sanitize is one 120-line function made of nested closures over
+# Under contract: genJenkinsBuildOrder + nested visit (see dfs_units below).  NOT under contract: JobNameCalculator.sanitize is one 120-line function made of nested closures over
 # shared dictionaries of sets (graph closure + greedy merge), _genJenkinsJobs recurses over the live package graph and
 # PartialIR serialises through a dozen classes -- a contract strong enough to carry "no merge closes a cycle" is a
 # protocol-level inductive invariant outside what was reachable here.  The functions are WATCHED (source hash) and the
-# property is covered by the bounded native search only (replay/C20.py): level 'exploration', nothing counted as proved.
+# naming/merging/completeness clauses are covered by the bounded native search only (replay/C20.py).
+import ast, z3
 from pyvc.api import *
+from pyvc.ty import *
+from pyvc.core import Raise, Exc, Unsupported, Closure
+from pyvc.view import SV, W
+from pyvc import extract
 F = 'pym/bob/cmds/jenkins/jenkins.py'
 def build(reg):
-    return [Watch(F, 'JobNameCalculator.sanitize', 'graph closure, reachability-checked greedy merge, prefix naming, numbering (unique internal names)'),
+    units = dfs_units(reg)
+    return units + [Watch(F, 'JobNameCalculator.sanitize', 'graph closure, reachability-checked greedy merge, prefix naming, numbering (unique internal names)'),
             Watch(F, 'JobNameCalculator.getJobInternalName', 'name mangling'), Watch(F, 'JobNameCalculator.getJobDisplayName', 'prefix + calculated name'),
-            Watch(F, '_genJenkinsJobs', 'job population'), Watch(F, 'genJenkinsBuildOrder', 'DFS build order / cycle detection'),
+            Watch(F, '_genJenkinsJobs', 'job population'),
             Watch(F, 'JenkinsJob.addStep', 'steps and upstream dependencies of a job'), Watch(F, 'JenkinsJob.getUpstreamJobs', 'upstream job names'),
             Watch('pym/bob/cmds/jenkins/intermediate.py', 'PartialIR.addStep', 'partial/full step serialisation'),
             Watch('pym/bob/cmds/jenkins/intermediate.py', 'getJenkinsVariantId', 'variant-id incl. sandbox'),
             Watch('pym/bob/intermediate.py', 'StepIR.fromStep', 'step serialisation')]
+
+
+# ---------------------------------------------------------------------------------------------------------------------
+# genJenkinsBuildOrder: depth first search.  Proved: if it returns, the order contains every job exactly where all of its
+# upstream jobs come earlier (topological) and every job name occurs in it.  (That it raises ParseError ONLY for cyclic
+# graphs - the processing set being a path - and termination are not proved.)
+S = z3.StringSort(); SS = SetT(STR); LS = ListT(STR)
+JOBS = OpaqueT('JobsDict'); JOB = OpaqueT('JenkinsJobRef'); JZ = sort_of(JOB)
+UP = z3.Function('JOB_upstream', S, sort_of(SS)); KEYS = z3.Const('JOB_KEYS', sort_of(SS)); JOB_OF = z3.Function('JOB_of', S, JZ); NAME_OF = z3.Function('JOB_name', JZ, S)
+
+def dfs_units(reg):
+    reg.trusted += ['jobs[name].getUpstreamJobs() is a function of the job name during genJenkinsBuildOrder (the jobs are not modified); every upstream name is a key of jobs (established by genJenkinsJobs: upstream names are computed with the same name calculator; watched)']
+    def idx_hook(eng, st, c, i, node):
+        if c.t == JOBS:
+            outs, ok = eng.guard(st, z3.Select(KEYS, i.z), 'KeyError', node, 'unknown job name')
+            if ok is not None:
+                ok.assume(NAME_OF(JOB_OF(i.z)) == i.z); outs.append((ok, V(JOB, JOB_OF(i.z))))
+            return outs
+        return None
+    reg.index_hook = idx_hook
+    reg.models['JenkinsJobRef.getUpstreamJobs'] = lambda e, st, a, kw, n: [(st, e.alloc(st, SS, UP(NAME_OF(a[0].z))))]
+    reg.models['JobsDict.keys'] = lambda e, st, a, kw, n: [(st, V(SS, KEYS))]
+    reg.pure_names |= {'JenkinsJobRef.getUpstreamJobs', 'JobsDict.keys'}
+    def inord(O, x):
+        k = z3.Int(fresh_name('k')); return z3.Exists([k], z3.And(0 <= k, k < list_len(LS, O), list_get(LS, O, k) == x))
+    def before(O, i, x):
+        k = z3.Int(fresh_name('k')); return z3.Exists([k], z3.And(0 <= k, k < i, list_get(LS, O, k) == x))
+    def INV(P, Q, O):
+        x = z3.Const(fresh_name('x'), S); d = z3.Const(fresh_name('d'), S); i = z3.Int(fresh_name('i'))
+        return [('processing-subset-of-pending', z3.ForAll([x], z3.Implies(z3.Select(Q, x), z3.Select(P, x)))),
+                ('pending-are-jobs', z3.ForAll([x], z3.Implies(z3.Select(P, x), z3.Select(KEYS, x)))),
+                ('finished-jobs-are-in-the-order', z3.ForAll([x], z3.Implies(z3.And(z3.Select(KEYS, x), z3.Not(z3.Select(P, x))), inord(O, x)))),
+                ('order-is-topological', z3.ForAll([i, d], z3.Implies(z3.And(0 <= i, i < list_len(LS, O), z3.Select(UP(list_get(LS, O, i)), d)), before(O, i, d)))),
+                ('ordered-jobs-are-not-pending', z3.ForAll([i], z3.Implies(z3.And(0 <= i, i < list_len(LS, O)), z3.And(z3.Not(z3.Select(P, list_get(LS, O, i))), z3.Select(KEYS, list_get(LS, O, i)))))),
+                ('len', list_len(LS, O) >= 0)]
+    def closed():
+        x = z3.Const(fresh_name('x'), S); d = z3.Const(fresh_name('d'), S)
+        return z3.ForAll([x, d], z3.Implies(z3.And(z3.Select(KEYS, x), z3.Select(UP(x), d)), z3.Select(KEYS, d)))
+    def extends(O2, O1):
+        i = z3.Int(fresh_name('i'))
+        return z3.And(list_len(LS, O2) >= list_len(LS, O1), z3.ForAll([i], z3.Implies(z3.And(0 <= i, i < list_len(LS, O1)), list_get(LS, O2, i) == list_get(LS, O1, i))))
+    def subset(A, Bs):
+        x = z3.Const(fresh_name('x'), S); return z3.ForAll([x], z3.Implies(z3.Select(A, x), z3.Select(Bs, x)))
+    def v_req(s):
+        return INV(s.pending.z, s.processing.z, s.order.z) + [('upstream-closed', closed()), ('j-is-a-job', z3.Select(KEYS, s.j.z))]
+    def v_post(o, n, r):
+        P0, Q0, O0 = o.pending.z, o.processing.z, o.order.z; P1, Q1, O1 = n.pending.z, n.processing.z, n.order.z
+        x = z3.Const(fresh_name('x'), S)
+        return z3.And(*[c for _, c in INV(P1, Q1, O1)], Q1 == Q0, subset(P1, P0), z3.Not(z3.Select(P1, o.j.z)), extends(O1, O0),
+                      z3.ForAll([x], z3.Implies(z3.Select(Q0, x), z3.Select(P1, x))))
+    def v_loop(cur, old, k, L):
+        P0, Q0, O0 = old.pending.z, old.processing.z, old.order.z; P1, Q1, O1 = cur.pending.z, cur.processing.z, cur.order.z
+        j = old.j.z; i = z3.Int(fresh_name('i')); x = z3.Const(fresh_name('x'), S)
+        return INV(P1, Q1, O1) + [('processing-is-old-plus-j', Q1 == z3.Store(Q0, j, True)), ('pending-shrinks', subset(P1, P0)), ('order-extends', extends(O1, O0)),
+                ('visited-upstreams-are-finished', z3.ForAll([i], z3.Implies(z3.And(0 <= i, i < k), z3.Not(z3.Select(P1, list_get(LS, L, i)))))),
+                ('iterates-the-upstream-jobs', z3.ForAll([x], z3.Select(UP(j), x) == z3.Exists([i], z3.And(0 <= i, i < list_len(LS, L), list_get(LS, L, i) == x)))),
+                ('frame', z3.And(cur.j.z == j, cur.stack.z == old.stack.z))]
+    VQ = 'genJenkinsBuildOrder.<locals>.visit'
+    def inject(eng, st):
+        fr = st.frames[-1]
+        fr['jobs'] = V(JOBS, z3.Const('the_jobs', sort_of(JOBS)))
+        mi = extract.load(F); fnode, ci = mi.find_func(VQ)
+        fr['visit'] = V(FUNC, Closure(fnode, {}, None, mi, name='bob.cmds.jenkins.jenkins.' + VQ))
+    P_ = {'j': STR, 'pending': SS, 'processing': SS, 'order': LS, 'stack': LS}
+    u = Unit(F, VQ, P_, 'C20', requires=v_req, entry_hook=inject, ensures=[('dfs-step', v_post)], raises={'bob.errors.ParseError': True},
+             loops={1: LoopSpec(inv=v_loop)}, modifies=['pending', 'processing', 'order'], note='depth first visit: finishes j and everything below it')
+    reg.add(u)
+    def outer_req(s): return [('upstream-closed', closed()), ('keys', z3.BoolVal(True))]
+    def outer_loop(cur, old):
+        return INV(cur.pending.z, cur.processing.z, cur.order.z) + [('nothing-in-progress-between-visits', cur.processing.z == z3.K(S, z3.BoolVal(False)))]
+    def outer_post(o, n, r):
+        x = z3.Const(fresh_name('x'), S); i = z3.Int(fresh_name('i')); d = z3.Const(fresh_name('d'), S); O = r.z
+        return z3.And(z3.ForAll([x], z3.Implies(z3.Select(KEYS, x), inord(O, x))),
+                      z3.ForAll([i, d], z3.Implies(z3.And(0 <= i, i < list_len(LS, O), z3.Select(UP(list_get(LS, O, i)), d)), before(O, i, d))))
+    def outer_inject(eng, st):
+        mi = extract.load(F); fnode, ci = mi.find_func(VQ)
+    u2 = Unit(F, 'genJenkinsBuildOrder', {'jobs': JOBS}, 'C20', requires=outer_req, ensures=[('order-is-complete-and-topological', outer_post)],
+              raises={'bob.errors.ParseError': True}, result=LS, loops={1: LoopSpec(inv=outer_loop)}, locals_types={'order': LS, 'processing': SS},
+              note='if it returns: every job is in the order and after all of its upstream jobs')
+    return [u, u2]
